@@ -462,7 +462,41 @@ def c20(ctx):
     corpus_validate(ctx, scripts, "c20tests")
 
 
+def c13(ctx):
+    mp, ms = (2, 3) if ctx.quick else (3, 4)
+    ctx.rule = ("list patterns of 0..%d items over {a, b, c, _, repeated name, nested list, nested object, misplaced "
+                "spread} with and without ..rest x source lists of length 0..%d (ints / nested / objects) and "
+                "non-list kinds x {:=, =, for target, parameter}; object patterns of 0..%d items over 12 item forms "
+                "x 7 sources x positions; round-trip laws (collect, object rest, spread = concat, fresh rest "
+                "parameter) as programs that must print true; every split of <= 3 argument segments (plain / "
+                "spread of 0..2) against arity 0..3 with / without ..rest, called written-out and spread; "
+                "non-trivial = every case; distinct = distinct parameter tuples" % (mp, ms, mp))
+    out = ctx.run_model("MC_C13", "C13Params", invariants=["C13Laws"], props=FRAME_PROPS + ["BuildFresh"],
+                        constants={"MaxPat": "= %d" % mp, "MaxSrc": "= %d" % ms})
+    ctx.replay(out, "c13", seeds=(None,) if ctx.quick else (None, ctx.seed))
+    scripts = [s for s in repo_test_scripts()
+               if "destruct" in s[0] or "spread" in s[0] or "collect" in s[0] or "params" in s[0]]
+    corpus_validate(ctx, scripts, "c13tests")
+
+
+def c14(ctx):
+    ctx.rule = ("3 ways to define the function x 7 read paths (o1.f, o1[\"f\"], o2.f, o2[\"f\"], o3.inner.f, "
+                "o3[\"inner\"][\"f\"], never through an object) x 11 moves (direct, variable, two variables, "
+                "argument, list element, return, re-store in a new object, destructuring, for, spread, "
+                "re-assignment), plus 4 carriers x 7 reads x 11 moves; lexical this / no this / operator drops "
+                "provenance / builtin through object / type function in a variable; 9 argument shapes x arity "
+                "0..3 x with/without ..rest with traced evaluation order; parameter freshness programs; the "
+                "independent rule ExpectedTag must agree with the machine; non-trivial = every case")
+    out = ctx.run_model("MC_C14", "C14Params", invariants=["C14Laws"],
+                        props=FRAME_PROPS + ["BuildFresh", "FreshPerEntry"])
+    ctx.replay(out, "c14", seeds=(None, ctx.seed) if ctx.quick else (None, ctx.seed, ctx.seed + 1, ctx.seed + 2))
+    scripts = [s for s in repo_test_scripts() if "this" in s[0] or "function" in s[0] or "args" in s[0]]
+    corpus_validate(ctx, scripts, "c14tests")
+
+
 REGISTRY = {
+    "C13": c13,
+    "C14": c14,
     "C04": c04,
     "C20": c20,
     "C05": c05,
